@@ -116,6 +116,8 @@ def gen_design(rng, n_nodes, kinds, max_inputs=8, maxw=70, hier_depth=0, feedbac
 
 def node_domain(desc, n):
     """key of the nearest ancestor group that has its own clock driver ('' = top-level driver)"""
+    if str(n['id']) in (desc.get('node_driver') or {}):
+        return 'node:%d' % n['id']          # a driver placed directly on the block (also on a clockable leaf)
     gd = desc.get('group_driver') or {}
     path = list(n['grp'])
     while path:
@@ -128,11 +130,14 @@ def node_domain(desc, n):
 
 def enabled_nodes(desc, getval):
     """ids of the nodes whose clock domain is enabled, judged from pre-edge values"""
-    gd = desc.get('group_driver') or {}
+    gd = dict(desc.get('group_driver') or {})
+    for nid, dv in (desc.get('node_driver') or {}).items():
+        gd['node:%s' % nid] = dv
+    gd[''] = {'en': desc.get('top_enable')}       # the top-level driver itself may be gated (enable attached after construction)
     out = set()
     for n in desc['nodes']:
         k = node_domain(desc, n)
-        if k == '' or gd[k].get('en') is None or getval(gd[k]['en']) != 0:
+        if gd[k].get('en') is None or getval(gd[k]['en']) != 0:
             out.add(n['id'])
     return out
 
@@ -244,6 +249,10 @@ class Built:
             d = py4hw.ClockDriver(drv['name'], base=self.hw.clockDriver, enable=enout)
             GatedClock(g, 'gclk', en, enout, d)
             g.clockDriver = d
+        elif en is not None and drv.get('idiom') == 'late_enable':
+            d = py4hw.ClockDriver(drv['name'], base=self.hw.clockDriver)
+            g.clockDriver = d
+            d.enable = en               # enable attached after construction
         else:
             g.clockDriver = py4hw.ClockDriver(drv['name'], base=self.hw.clockDriver, enable=en)
 
@@ -305,9 +314,17 @@ class Built:
         parent = self.group(n['grp'])
         ins = [self.wire(r) for r in n['ins']]
         outs = [self.wire('n%d.%d' % (nid, j)) for j in range(len(n['ow']))]
+        ins0, outs0 = list(ins), list(outs)
         with seams.quiet():
             obj = k.build(parent, (self.desc.get('inst_names') or {}).get(str(nid), 'u%d' % nid), ins, outs, n['p'])
+        if [id(w) for w in ins] != [id(w) for w in ins0] or [id(w) for w in outs] != [id(w) for w in outs0]:
+            # the lists belong to the caller, who goes on using them (e.g. to wire the next block)
+            raise Violation('caller-list-mutated', 'fn:%s:caller-list-reordered' % n['kind'], 0,
+                            'constructor of %s changed the list of wires it was given' % n['kind'])
         self.objs[nid] = obj
+        nd = (self.desc.get('node_driver') or {}).get(str(nid))
+        if nd is not None:
+            self._pending_drv.append((obj, nd))
         self._flush_drivers()
         return obj
 
@@ -319,6 +336,8 @@ class Built:
         for i in self.desc['inputs']:
             self.wire(i['name'])
         self._flush_drivers()
+        if self.desc.get('top_enable') and self.hw.clockDriver.enable is None:
+            self.hw.clockDriver.enable = self.wire(self.desc['top_enable'])
         return self
 
     def set_inputs(self, vec):
@@ -412,6 +431,9 @@ class RefModel:
             if enabled is not None and nid not in enabled:
                 continue
             iv = [vals[r] for r in n['ins']]
+            if nid in self.unspec and None not in iv and n['kind'] == 'Reg' and not n['p'].get('en'):
+                self.unspec.discard(nid)        # an always-enabled register forgets an unspecified value at the next edge
+                self.state[nid] = k.init(n['p'], self.iw[nid], n['ow'])
             if None in iv or nid in self.unspec:
                 self.unspec.add(nid)            # sticky: the state itself is no longer specified
                 continue
@@ -477,9 +499,9 @@ def update_poison(built):
     return bad
 
 
-def compare(built, ref_vals, step, where, refs=None, sigprefix='mismatch'):
+def compare(built, ref_vals, step, where, refs=None, sigprefix='mismatch', use_poison=True):
     """wire-for-wire comparison of the real system against reference values"""
-    bad = update_poison(built)
+    bad = update_poison(built) if use_poison else None
     for r, w in built.wires.items():
         if refs is not None and r not in refs:
             continue
